@@ -3,6 +3,7 @@ from lib import *
 from hist import *
 from fsgen import *
 from c05 import merged_items
+from c10 import directed_delay
 
 RULE = ("massive-mode scenarios = documents with 0..many failing blocks (format errors at the generator stage, invalid names at "
         "the grow stage, writer / callback / path-exists / verify failures at the sink) x cancellation (already cancelled, at every "
@@ -66,13 +67,13 @@ def scenarios(rng, n, heading_share=0.0):
                              "p%s:%d" % (rng.choice(["gen.recv", "grow.recv", "spread.recv", "split.send", "herr.reader", "gen.line", "feed.send", "walk.recv", "mkdir.recv"]), rng.randint(1, 6))])
         rfail = "-" if rng.random() < 0.85 or entry.startswith("r") else str(rng.randint(0, len(doc)))
         procs = rng.choice([1, 2, 4, 16])
-        seed = rng.choice([0, rng.randint(1, 10 ** 6), rng.randint(1, 10 ** 6)])
+        seed = rng.choice([0, rng.randint(1, 10 ** 6), rng.randint(1, 10 ** 6), directed_delay(rng)])
         slow = rng.choice("01")
         if entry.startswith("r"):
             inp = items_arg(merged_items(items)[0]).encode()
         else:
             inp = doc
-        case = "mscn %s %d %s %s %s %s %d %s %s - %s 0 %s" % (entry, procs, cancel, rfail, budget, cbfail, seed, slow, snap_arg(pre), hx(b"tgt"), hx(inp))
+        case = "mscn %s %d %s %s %s %s %s %s %s - %s 0 %s" % (entry, procs, cancel, rfail, budget, cbfail, seed, slow, snap_arg(pre), hx(b"tgt"), hx(inp))
         out.append((case, entry, cancel, rfail, nbad, nroots, len(doc)))
     return out
 
@@ -103,7 +104,10 @@ def run(ck, rng):
     n = 900 if ck.tier == "quick" else 25000
     scs = scenarios(rng, n)
     cases = [s[0] for s in scs]
-    impl, crashes = run_impl(exe, cases, per_case_timeout=40.0)
+    impl, crashes = run_impl(exe, cases, per_case_timeout=40.0, max_abnormal=6)
+    def max_ms(rs):
+        return max([int(r.split(" ")[1]) for r in rs if len(r.split(" ")) > 2 and r.split(" ")[1].isdigit()] or [0])
+    ck.extra["max_call_ms"] = max_ms(impl)
     for (case, entry, cancel, rfail, nbad, nroots, dl), res in zip(scs, impl):
         ck.case(case[:300], nbad > 0 or cancel != "-" or nroots >= 3)
         ck.count("entry:" + entry)
@@ -128,7 +132,8 @@ def run(ck, rng):
                                                           snap_arg([(b"tgt", "d")]), hx(b"tgt"), hx(doc))
         rs.append((case, entry, "-", "-", 1, nroots, len(doc)))
     env = dict(os.environ, GORACE="halt_on_error=1 exitcode=66")
-    rimpl, rcrashes = run_impl(rexe, [s[0] for s in rs], per_case_timeout=60.0, env=env)
+    rimpl, rcrashes = run_impl(rexe, [s[0] for s in rs], per_case_timeout=60.0, env=env, max_abnormal=6)
+    ck.extra["max_call_ms_race_build"] = max_ms(rimpl)
     for (case, entry, cancel, rfail, nbad, nroots, dl), res in zip(rs, rimpl):
         ck.case("race " + case[:300], True)
         ck.count("race_build_cases")
